@@ -1204,15 +1204,15 @@ class Variogram(object):
         if not isinstance(self.distance_matrix, sparse.spmatrix):
             raise RuntimeWarning("Only available for sparse coordinates.")
 
-        m = self.distance_matrix
-        c = m.tocsc()
-        c.data = c.indices
-        rows = c.tocsr()
-        filt = sparse.csr_matrix(
-            (m.indices < rows.data, m.indices, m.indptr),
+        m = self.distance_matrix.tocoo()
+        # keep the stored entries below the diagonal. Do not multiply with a
+        # boolean filter matrix here: that drops explicitly stored zeros, i.e.
+        # the distances of co-located points.
+        filt = m.col < m.row
+        return sparse.csr_matrix(
+            (m.data[filt], (m.row[filt], m.col[filt])),
             m.shape
         )
-        return m.multiply(filt)
 
     @property
     def distance_matrix(self):
